@@ -17,9 +17,12 @@
 (*   Query  [bl, ban]           IsAllowed / IsBanned asked directly (TRUE = refused)              *)
 (*   QueryN [n, no]             IsAllowed asked n times in a row; no = answers "not refused"      *)
 (*   Take   [ok]                RateLimiter.AllowIP asked directly                                *)
+(*   TakeBatch [n, ok]          n AllowIP calls released together by a start barrier for an address *)
+(*                              without a bucket, inside one bracket; ok = admitted                 *)
 (*   Async  [what]              a spawned `go UnbanIP` ("unban") / `go RemoveFromBlacklist`        *)
 (*                              ("unbl") ran now (only used to name the history shape)            *)
-(*   MUnban, MUnbl [form], Blk [perm, form], Wl [on, form], Clean [what], Tick   operator actions   *)
+(*   MUnban, MUnbl [form], Blk [perm, form, fault], Wl [on, form], Clean [what], Tick   operator    *)
+(*          actions (fault = TRUE: the storage write behind the order failed)                       *)
 (*          and clean-up runs; form = "ip" (entry is the address itself) | "net" (a CIDR range      *)
 (*          containing it) | "other" (a range not containing it)                                    *)
 (*   Reload                     the IPManager was replaced by a fresh one over the same storage     *)
@@ -60,7 +63,7 @@ VARIABLES cfg,
 vars == <<l, viol, cfg, fs, sf, lastSucc, lastMU, lastClean, ob, aU, aL, blo, wlst, lastReload, cl, adm, refs>>
 
 NoCfg == [thr |-> 0]
-NoBl == [k |-> "none", from |-> 0, to |-> 0, born |-> 0, end |-> 0, line |-> 0]
+NoBl == [k |-> "none", from |-> 0, to |-> 0, born |-> 0, end |-> 0, line |-> 0, flt |-> FALSE]
 \* entry forms covering the address: itself, a narrow and a wide CIDR range (overlapping, independent
 \* lifetimes); "other" = an entry that does not cover the address: no demand follows from it
 FORMS == {"ip", "net", "net2"}
@@ -108,7 +111,8 @@ NotBanned(i, q) ==
 \* order for the other entry form has run out by now ("shadowed": its expired entry is found first);
 \* the manager was re-created from storage after the order was given ("afterReload"); none ("plain")
 BlCause(i, f, b, q) ==
-  IF \E x \in 1..Len(aL[i]) : aL[i][x] + cfg.aTol >= b.born THEN "lateUnbl"
+  IF b.flt THEN "storageFault"
+  ELSE IF \E x \in 1..Len(aL[i]) : aL[i][x] + cfg.aTol >= b.born THEN "lateUnbl"
   ELSE IF \E g \in FORMS \ {f} : blo[i][g].k = "temp" /\ q.t1 >= blo[i][g].end THEN "shadowed"
   ELSE IF lastReload > b.line THEN "afterReload"
   ELSE "plain"
@@ -187,6 +191,14 @@ TrQueryN ==
   /\ viol' = viol \cup (IF Ev.no > 0 THEN NotBlacklisted(Ev.ip, Iv) ELSE {})
   /\ l' = l + 1 /\ UNCHANGED <<cfg, fs, sf, lastSucc, lastMU, lastClean, ob, aU, aL, blo, wlst, lastReload, cl, adm, refs>>
 
+\* n AllowIP calls made at the same time (start barrier) by an address that had no bucket before,
+\* all inside one bracket; ok = how many were admitted
+TrTakeBatch ==
+  /\ Is("TakeBatch")
+  /\ viol' = viol \cup (IF Ev.ok * 1000000 > cfg.burst * 1000000 + cfg.rate * 1000 * (Ev.t1 - Ev.t0) + cfg.slack * 1000
+                        THEN {V("RateBound", "concurrentFirst")} ELSE {})
+  /\ l' = l + 1 /\ UNCHANGED <<cfg, fs, sf, lastSucc, lastMU, lastClean, ob, aU, aL, blo, wlst, lastReload, cl, adm, refs>>
+
 TrTake ==
   /\ Is("Take")
   /\ adm' = IF Ev.ok THEN Up(adm, Ev.ip, Append(adm[Ev.ip], [t0 |-> Ev.t0, t1 |-> Ev.t1, how |-> "allowIP"])) ELSE adm
@@ -201,12 +213,20 @@ TrAsync ==
 TrMUnban == /\ Is("MUnban") /\ ob' = Up(ob, Ev.ip, {}) /\ lastMU' = Up(lastMU, Ev.ip, Ev.t1)
             /\ l' = l + 1 /\ UNCHANGED <<viol, cfg, fs, sf, lastSucc, lastClean, aU, aL, blo, wlst, lastReload, cl, adm, refs>>
 
+\* A blacklist order given while the storage write failed (fault): whether the new entry took effect
+\* is the implementation's business, but a failed update never lifts what was in force - the demand
+\* becomes the weaker of the previous and the new order (none if there was no previous one).
 TrBlk == /\ Is("Blk")
-         /\ blo' = IF Ev.form \in FORMS
-                   THEN Up(blo, Ev.ip, [blo[Ev.ip] EXCEPT ![Ev.form] =
-                              [k |-> IF Ev.perm THEN "perm" ELSE "temp", from |-> Ev.t1 + cfg.mS,
-                               to |-> Ev.t0 + cfg.bld - cfg.mE, born |-> Ev.t1, end |-> Ev.t1 + cfg.bld, line |-> l]])
-                   ELSE blo
+         /\ LET new == [k |-> IF Ev.perm THEN "perm" ELSE "temp", from |-> Ev.t1 + cfg.mS,
+                        to |-> Ev.t0 + cfg.bld - cfg.mE, born |-> Ev.t1, end |-> Ev.t1 + cfg.bld, line |-> l, flt |-> FALSE]
+                old == blo[Ev.ip][Ev.form]
+                weak == IF old.k = "none" THEN old
+                        ELSE IF new.k = "perm" THEN [old EXCEPT !.flt = TRUE]
+                        ELSE IF old.k = "perm" THEN [new EXCEPT !.from = old.from, !.born = old.born, !.line = old.line, !.flt = TRUE]
+                        ELSE [old EXCEPT !.to = IF new.to < old.to THEN new.to ELSE old.to, !.flt = TRUE]
+            IN blo' = IF Ev.form \in FORMS
+                      THEN Up(blo, Ev.ip, [blo[Ev.ip] EXCEPT ![Ev.form] = IF "fault" \in DOMAIN Ev /\ Ev.fault THEN weak ELSE new])
+                      ELSE blo
          /\ l' = l + 1 /\ UNCHANGED <<viol, cfg, fs, sf, lastSucc, lastMU, lastClean, ob, aU, aL, wlst, lastReload, cl, adm, refs>>
 
 TrMUnbl == /\ Is("MUnbl")
@@ -246,6 +266,6 @@ TrEnd == /\ Is("End")
          /\ PrintT("VERDICT " \o ToJson([tr |-> Ev.tr, viol |-> SetToSeq(viol \cup (IF cfg = NoCfg THEN {} ELSE EndViol))]))
          /\ l' = l + 1 /\ viol' = {} /\ Reset
 
-Next == TrQueryN \/ TrReload \/ TrCfg \/ TrHs \/ TrQuery \/ TrTake \/ TrAsync \/ TrMUnban \/ TrBlk \/ TrMUnbl \/ TrWl \/ TrClean \/ TrTick \/ TrEnd
+Next == TrTakeBatch \/ TrQueryN \/ TrReload \/ TrCfg \/ TrHs \/ TrQuery \/ TrTake \/ TrAsync \/ TrMUnban \/ TrBlk \/ TrMUnbl \/ TrWl \/ TrClean \/ TrTick \/ TrEnd
 Spec == Init /\ [][Next]_vars
 =============================================================================
